@@ -161,7 +161,8 @@ PROPS["C16"] = {
 PROPS["C09"] = {
     "module": "RCE.Props.C09",
     "theorems": ["RCE.Props.C09.one_legal_bestmove", "RCE.Props.C09.ply_restored", "RCE.Props.C09.chess_bestmove_legal_by_the_rules",
-                 "RCE.Props.C09.chess_eval_bounded", "RCE.Props.C09.chess_go_answers_a_legal_move"],
+                 "RCE.Props.C09.chess_eval_bounded", "RCE.Props.C09.chess_go_answers_a_legal_move",
+                 "RCE.Props.C09.allowance_within_own_clock", "RCE.Props.C09.clock_expiry_noticed"],
     "streams": {"quick": [SP_Q, SB_Q, SS_Q, SC_Q], "thorough": [SP_T, SB_T, SS_T, SC_T]},
     "eval_key": "cases", "distinct_key": "distinct_cases",
     "rule": SEARCH_RULE + "; for C09: exactly one bestmove line per search, the move must be legal in the rules spec's position, no panic of the search, under every node budget and stop point "
